@@ -114,6 +114,41 @@ def run(ctx):
     else_raises = bool(els) and all(isinstance(n, ast.Raise) for n in els[-1:])
     ctx.ob('decode-loop', 'unhandled-opcode-raises', else_raises,
            'the dispatch chain must end in a raising else branch', py.where('deserialize', chain))
+    # --- truncated input is an error: the operand reader raises at end of input, and lists read exactly `length` operands through it
+    helpers = {n.name: n for n in fn.body if isinstance(n, ast.FunctionDef)}
+    nb = helpers.get('next_byte')
+    ok_nb = False
+    if nb is not None:
+        ps = PyEval().paths(nb)
+        rets = [p for p in ps if p.end[0] == 'return']
+        raises = [p for p in ps if p.end[0] == 'raise']
+        src_call = ('call', ('name', 'maybe_next_byte'), (), ())
+
+        def none_test(c):
+            return c[0] == 'cmp' and c[1] in ('==', 'is') and {c[2], c[3]} == {src_call, ('const', None)}
+        ok_nb = bool(rets) and all(p.end[1] == src_call and any(none_test(c) and b is False for c, b in p.conds) for p in rets) \
+            and any(any(none_test(c) and b is True for c, b in p.conds) for p in raises)
+    ctx.ob('decode-loop', 'operand-reader-raises-at-end', ok_nb,
+           'next_byte must return the next byte only when there is one and raise otherwise: a truncated operand must be an error',
+           py.where('deserialize', nb or fn))
+    mb = helpers.get('maybe_next_byte')
+    ok_mb = False
+    if mb is not None:
+        ps = PyEval().paths(mb)
+        ok_mb = any(p.end == ('return', ('const', None)) for p in ps) and any(p.end[0] == 'return' and p.end[1][0] == 'sub' for p in ps)
+    ctx.ob('decode-loop', 'end-of-input-is-none', ok_mb, 'maybe_next_byte must return None exactly at end of input', py.where('deserialize', mb or fn))
+    rl = helpers.get('read_list')
+    ok_rl = False
+    if rl is not None:
+        loops = [n for n in ast.walk(rl) if isinstance(n, ast.For)]
+        ok_rl = len(loops) == 1 and ast.unparse(loops[0].iter).startswith('range(') and \
+            any(isinstance(n, ast.Call) and ast.unparse(n.func) == 'next_byte' for n in ast.walk(loops[0]))
+        if ok_rl:
+            bound = ast.unparse(loops[0].iter)[6:-1]
+            defs = [n for n in ast.walk(rl) if isinstance(n, ast.Assign) and isinstance(n.targets[0], ast.Name) and n.targets[0].id == bound]
+            ok_rl = len(defs) == 1 and isinstance(defs[0].value, ast.Call) and ast.unparse(defs[0].value.func) == 'next_byte'
+    ctx.ob('decode-loop', 'lists-read-through-checked-reader', ok_rl,
+           'read_list must read a length with next_byte and then exactly that many operands with next_byte', py.where('deserialize', rl or fn))
     # --- writer table
     writer = {}          # opcode -> [(method, case)]
     for meth in PM.INTERP_METHODS:
